@@ -217,7 +217,14 @@ def run_cases(prop, pid, seed, tier, race=False):
         except OSError:
             pass
         how = "did not terminate within %d s" % tmo if rc == 124 else "exited with status %d" % rc
-        return None, "harness %s (last case emitted: %s): %s" % (how, last or "none", out[-4000:])
+        # findings the harness had already written before it died are still reported (with their inputs)
+        side = []
+        try:
+            with open(cases, errors="replace") as fc:
+                side = [l.rstrip("\n").split("\t") for l in fc if l.startswith("!") and l.endswith("\n")]
+        except OSError:
+            pass
+        return ([], side), "harness %s (last case emitted: %s): %s" % (how, last or "none", out[-4000:])
     rc2, out2 = sh("%s %d %s > %s" % (os.path.join(ROOT, "ocaml", "driver"), prop["num"], cases, results), timeout=tmo)
     if rc2 != 0:
         return None, "driver failed (rc=%d): %s" % (rc2, out2[-2000:])
@@ -316,15 +323,16 @@ def main(argv):
     rows, side = [], []
     if okh and okd:
         res, err = run_cases(prop, pid, seed, tier)
-        if res is None:
+        if err:
             viols.append((err[:300], {"kind": "correspondence-broken", "theorem_or_correspondence": "harness run", "log": err}, False))
-        else:
+        if res is not None:
             rows, side = res
+        if res is not None and not err:
             if prop.get("race") and tier == "thorough":
                 res2, err2 = run_cases(prop, pid, seed, "thorough", race=True)
-                if res2 is None:
+                if err2:
                     viols.append((err2[:300], {"kind": "correspondence-broken", "theorem_or_correspondence": "race run", "log": err2}, False))
-                else:
+                if res2 is not None:
                     side += res2[1]
 
     # ---- decide ----
@@ -458,7 +466,7 @@ def do_replay(prop, pid, path):
     if "index" not in body:
         print(json.dumps(body, indent=1)); return 0
     res, err = run_cases(prop, pid, body["seed"], body["tier"])
-    if res is None:
+    if res is None or err:
         print(err); return 2
     rows, side = res
     r = rows[body["index"]]
